@@ -147,14 +147,28 @@ def run(ctx):
         baseline, known_fns = _b["sites"], set(_b.get("functions", []))
     except Exception:
         baseline, known_fns = None, set()
+    # how many sites of each kind the crate has now, and had on the pinned tree: a helper extracted from an existing function takes
+    # its sites along (the total stays), a panic-capable construct that was not there before makes the total grow
+    now_total, base_total = {}, {}
+    for (f_, b_, t_, kind_, what_) in all_sites:
+        now_total[what_] = now_total.get(what_, 0) + 1
+    for k_, n_ in (baseline or {}).items():
+        w_ = k_.rsplit("|", 1)[-1]
+        base_total[w_] = base_total.get(w_, 0) + n_
+    excess = {w_: max(0, now_total.get(w_, 0) - base_total.get(w_, 0)) for w_ in now_total} if baseline is not None else {}
     for key, lst in sorted(per_key.items()):
         f, t, kind, what, why = lst[0]
         # a function that exists on the pinned tree is judged in full: a panic-capable construct added to it needs an
-        # argument; only sites inside functions that did not exist (extracted helpers) are "new code"
+        # argument; sites inside functions that did not exist are "new code" when they merely moved there (extracted helpers),
+        # but a construct that makes the crate's total of that kind grow is new wherever it was put
         if baseline is None or f.name.split("::{closure")[0] in known_fns:
             new = 0
         else:
-            new = len(lst)
+            grown = min(len(lst), excess.get(what, 0))
+            excess[what] = excess.get(what, 0) - grown
+            new = len(lst) - grown
+            if grown:
+                why = "%s (a new function, but the crate now has more `%s` sites than the pinned tree: this one did not move here, it was added)" % (why, what)
         n_viol = max(0, len(lst) - new)
         if n_viol:
             ctx.report("C07-census", key, "%d undischarged %s site(s) `%s` in %s: %s" % (n_viol, kind, what, f.name, why), where_of(f, t))
